@@ -32,14 +32,14 @@ META = {
     "trusted_base": ["Coq 8.16.1 kernel, vm_compute", "Lua/Resolve.v (scoping specification)",
                      "harness/crates/rules + astdump + c09", "darklua's parser"],
     "allowed_axioms": [],
-    "rule": "programs: 47 templates (one per scoping situation of the property) x 7 configurations + seeded random programs "
+    "rule": "programs: 58 templates (one per scoping situation of the property) x 7 configurations + seeded random programs "
             "over a 28-identifier pool (2 configurations each) + 300/400-live-local programs; configurations {default, "
             "include_functions, globals $default / $roblox / [print,foo] / [print,foo,a,b]}; generators dense/readable/"
             "retain_lines for the end-to-end text; non-trivial = the rule changed at least one binder name and both output "
             "trees pass; distinct by (configuration, source).  Model ties: first 20 000 (quick) / 300 000 (thorough) "
             "generated names, 6 000 / 300 000 raw permutator strings, 300 / 5 000 random operation traces (non-trivial = "
             "contains a pop).  Each run also checks that the oracle flags 3 negative controls (captures produced by the real "
-            "rule with detect_globals off) and 7 hand-made bad trees, one per verdict class.",
+            "rule with detect_globals off) and 11 hand-made bad trees (one per verdict class, plus an explicit parameter `self` in a method).",
     "assumptions": ["fewer than 4 771 499 permutator strings are consumed in one file (the next one is `self`, which the rule "
                     "never avoids: known finding self-generated-after-4.7M-names; C09_generated_disjoint_from_kept is stated "
                     "under this bound and C09_generated_disjoint_from_kept_refuted shows it is needed)",
@@ -371,6 +371,12 @@ def run(ctx):
         (True, loc("x", '(Some (LReturn [(EIdent (nm "x"))]))'), loc("b", '(Some (LReturn [(EIdent (nm "x"))]))'), 2),
         (True, loc("x", '(Some (LReturn [(EIdent (nm "x"))]))'), loc("b", '(Some (LReturn [(EIdent (nm "b"))]))'), 0),
     ]
+    def meth(param, ret):   # function t:m(<param>) return <ret> end
+        return ('(Block [(SFunction (nm "t") [] (Some (nm "m")) (FBody [(Param (nm "%s") None)] false None None None 0 '
+                '(Block [] (Some (LReturn [(EIdent (nm "%s"))])))))] None)' % (param, ret))
+    # an explicit parameter self shadows the receiver: renaming it while the body keeps `self` rebinds the body
+    selftests += [(True, meth("self", "self"), meth("a", "self"), 2), (True, meth("self", "self"), meth("a", "a"), 0),
+                  (True, meth("x", "self"), meth("a", "self"), 0), (True, meth("x", "self"), meth("self", "self"), 2)]
     selftest_ids = {}
     for incl, t_in, t_bad, expect in selftests:
         k = len(cases)
